@@ -892,6 +892,8 @@ impl LdapConnAsync {
                             },
                         }
                     } else {
+                        #[cfg(ldap3_verif)]
+                        verif_trace(String::from("drv end miscclosed"));
                         break;
                     }
                 },
